@@ -352,6 +352,16 @@ func verifErrKind(k uint64) error {
 var verifStackHook func() *Stack
 var verifMemoryHook func() *Memory
 
+// verifReturnDataHook: the return-data buffer a frame starts its first instruction with
+// (the real code starts with an empty one; a step harness starts "in the middle" of a frame).
+var verifReturnDataHook func() []byte
+
+func verifInitialReturnData() []byte {
+	if verifReturnDataHook != nil {
+		return verifReturnDataHook()
+	}
+	return nil
+}
 func verifNewStack() *Stack {
 	if verifStackHook != nil {
 		return verifStackHook()
